@@ -36,7 +36,20 @@ pub trait FromUntyped: Sized { fn from_untyped(v: Val) -> Result<Self>; }
 impl FromUntyped for f64 { fn from_untyped(v: Val) -> Result<f64> { match v { Val::Num(n) => Ok(n.0), _ => Err(Error(ErrorKind::Typed)) } } }
 // mirrors typed/conversions.rs: u16 accepts only integral numbers in range
 impl FromUntyped for u16 { fn from_untyped(v: Val) -> Result<u16> { match v { Val::Num(NumValue(n)) if n >= 0.0 && n <= 65535.0 && n == n.trunc() => Ok(n as u16), _ => Err(Error(ErrorKind::Typed)) } } }
+#[derive(Clone, Copy)]
 pub struct ObjValue;
+/// key text of a %(key) code (the IStr of format_obj, renamed): compared by content
+#[derive(Clone, Copy)]
+pub struct KeyStr { b: [u8; 8], n: usize }
+impl From<&str> for KeyStr { fn from(s: &str) -> Self { let mut k = KeyStr { b: [0; 8], n: s.len() }; let sb = s.as_bytes(); let mut i = 0; while i < sb.len() && i < 8 { k.b[i] = sb[i]; i += 1; } k } }
+impl KeyStr { pub fn is_empty(&self) -> bool { self.n == 0 } pub fn is(&self, s: &str) -> bool { let sb = s.as_bytes(); if sb.len() != self.n { return false; } let mut i = 0; while i < sb.len() { if self.b[i] != sb[i] { return false; } i += 1; } true } }
+impl std::ops::Deref for KeyStr { type Target = str; fn deref(&self) -> &str { unsafe { std::str::from_utf8_unchecked(std::slice::from_raw_parts(self.b.as_ptr(), self.n)) } } }
+/// object { "a.b": "exact", x: 7 } for format_obj
+impl ObjValue { pub fn get(&self, k: KeyStr) -> Result<Option<Val>> { Ok(if k.is("a.b") { Some(Val::Str("exact")) } else if k.is("x") { Some(Val::Num(NumValue(7.0))) } else { None }) } }
+pub static mut DOTTED_CALLS: usize = 0;
+pub static mut DOTTED_KEY_OK: bool = false;
+/// contract of get_dotted_field: the value at the dotted path
+fn get_dotted_field(_obj: ObjValue, field: &str) -> Result<Val> { unsafe { DOTTED_CALLS += 1; DOTTED_KEY_OK = field.len() == 3 && field.as_bytes()[0] == b'q' && field.as_bytes()[1] == b'.' && field.as_bytes()[2] == b'r'; } Ok(Val::Str("dotted")) }
 
 // probe replacing format_code inside format_arr (rename rewrite): records what each code received
 #[derive(Debug, Clone, Copy, PartialEq)]
@@ -76,6 +89,7 @@ use FormatError::*;
 //@item crates/jrsonnet-evaluator/src/stdlib/format.rs :: fn render_float_sci ;; keep-pub
 //@item crates/jrsonnet-evaluator/src/stdlib/format.rs :: fn format_code ;; keep-pub
 //@item crates/jrsonnet-evaluator/src/stdlib/format.rs :: fn format_arr ;; keep-pub rename=format_code->format_code_probe
+//@item crates/jrsonnet-evaluator/src/stdlib/format.rs :: fn format_obj ;; keep-pub rename=format_code->format_code_probe rename=IStr->KeyStr
 
 #[cfg(kani)]
 mod harness {
@@ -184,6 +198,31 @@ mod harness {
     #[kani::unwind(10)]
     #[kani::stub(alloc::fmt::format, stub_format)]
     fn h_format_arr_too_many() { check_format_arr(4); }
+    /// object mode: %(key) takes the field of exactly that name first, a dotted path only as a fallback; %% needs no key;
+    /// a code without key, or a * width / precision, is an error
+    #[kani::proof] #[kani::unwind(10)] #[kani::stub(alloc::fmt::format, stub_format)]
+    fn h_format_obj_exact() {
+        unsafe { NPROBES = 0; DOTTED_CALLS = 0; }
+        assert!(format_obj("%(a.b)s", &ObjValue).is_ok(), "obligation: a key naming an existing field formats");
+        unsafe { assert!(NPROBES == 1 && PROBES[0].unwrap().value == Val::Str("exact") && DOTTED_CALLS == 0, "obligation: %(key) uses the field of exactly that name when it exists, even if the name contains dots"); }
+    }
+    #[kani::proof] #[kani::unwind(10)] #[kani::stub(alloc::fmt::format, stub_format)]
+    fn h_format_obj_dotted() {
+        unsafe { NPROBES = 0; DOTTED_CALLS = 0; }
+        assert!(format_obj("%(q.r)s", &ObjValue).is_ok(), "obligation: a dotted key without an exact field falls back to the path");
+        unsafe { assert!(NPROBES == 1 && PROBES[0].unwrap().value == Val::Str("dotted") && DOTTED_CALLS == 1 && DOTTED_KEY_OK, "obligation: the fallback looks up the whole key as a dotted path"); }
+    }
+    #[kani::proof] #[kani::unwind(10)] #[kani::stub(alloc::fmt::format, stub_format)]
+    fn h_format_obj_percent() {
+        unsafe { NPROBES = 0; }
+        assert!(format_obj("%(x)d%%", &ObjValue).is_ok(), "obligation: %% needs no key");
+        unsafe { assert!(NPROBES == 2 && PROBES[0].unwrap().value == Val::Num(NumValue(7.0)) && PROBES[1].unwrap().conv_is_percent && PROBES[1].unwrap().value == Val::Null, "obligation: codes are rendered left to right with their own field"); }
+    }
+    #[kani::proof] #[kani::unwind(10)] #[kani::stub(alloc::fmt::format, stub_format)]
+    fn h_format_obj_errors() {
+        assert!(format_obj("%s", &ObjValue).is_err(), "obligation: in object mode every conversion needs a mapping key");
+        assert!(format_obj("%(x)*d", &ObjValue).is_err(), "obligation: * width cannot be used with an object");
+    }
     fn check_format_arr(n: usize) {
         // distinct small values: the obligation is about ORDER of consumption, not about number conversion
         let w: u8 = if kani::any() { 1 } else { 5 }; let p: u8 = if kani::any() { 2 } else { 6 }; let v: u8 = if kani::any() { 3 } else { 9 };
